@@ -86,7 +86,7 @@ m = {
  "setup_cmd": "./setup.sh",
  "hooks": {
    "guard": "verif",
-   "enable": "go build -tags verif -overlay <generated>: every /verif/hooks/<pkg>_zz_verif.go is mapped to /repo/<pkg>/zz_verif.go (added files only, each carrying //go:build verif); for C16 additionally mechanically rewritten copies of the current utils/qr sources (tag verifsched). Nothing is committed to /repo for instrumentation.",
+   "enable": "go build -tags verif -overlay <generated>: every /verif/hooks/<pkg>_zz_verif.go is mapped to /repo/<pkg>/zz_verif.go (added files only, each carrying //go:build verif; hooks/qr_zz_verifint.go, the seams into private functions of package qr, is replaced by hooks/qr_zz_verifint_stub.go when it does not compile against the current sources, and the C16 harnesses that need it are then reported as incomplete); for C16 additionally mechanically rewritten copies of the current utils/qr sources (tag verifsched). Nothing is committed to /repo for instrumentation.",
    "baseline_off_cmd": "cd /repo && GOFLAGS=-mod=mod GOPROXY=off GOSUMDB=off GOTOOLCHAIN=local go test -json -vet=off -count=1 -timeout 25m ./...",
    "source_commits": [],
    "add_only": True,
